@@ -37,7 +37,8 @@ Fixpoint pack_bits (fuel : nat) (bs : list bool) : list Z :=
   | S f =>
       match bs with
       | [] => []
-      | _ => bits_val (firstn 8 (bs ++ repeat false 7)) :: pack_bits f (skipn 8 bs)
+      | _ => let h := firstn 8 bs in
+             bits_val h * 2 ^ (8 - zlen h) :: pack_bits f (skipn 8 bs)
       end
   end.
 Definition bits_to_bytes (bs : list bool) : list Z := pack_bits (S (length bs)) bs.
